@@ -44,6 +44,18 @@ def gen_text(rnd, ca):
         return acetext.with_ws(rnd, toks)
     if r < 0.8:
         return rnd.choice(["", " ", "\t", "\n", "  \n \n", "remark", "10", "permit", "any", "/", ".", "0", "host"])
+    if r < 0.86:
+        # an address-group text: a valid or near-valid header, then member lines of every quality
+        head = rnd.choice(["object-group network G", "object-group ip address G", "object-group network", "object-group G"])
+        pool = ["host 10.0.0.1", "10.0.0.0 255.255.255.0", "10.0.0.0/24", "10 host 10.0.0.2", "description d", "range 10.0.0.1 10.0.0.9",
+                "host", "group-object X", "10.0.0.0 0.0.0.255", "20 10.0.0.0 0.0.0.255", "any", "bogus 1", ""]
+        return "\n".join([head] + [" " * rnd.choice([0, 1, 2]) + rnd.choice(pool) for _ in range(rnd.randint(0, 3))])
+    if r < 0.92:
+        # an interface section with bindings of every quality
+        body = ["ip access-group A in", "ip access-group A out", "ip access-group A 10", "ip access-group in A",
+                "ip access-group A in in", "ip access-group A", "ip access-group", "ip access-group A IN", "no shutdown"]
+        return "\n".join(["ip access-list extended A", " permit ip any any", "interface Gi1"] +
+                         [" " + rnd.choice(body) for _ in range(rnd.randint(1, 3))])
     lines = []
     for _ in range(rnd.randint(1, 7)):
         ind = " " * rnd.choice([0, 0, 1, 2, 2, 4, 7])
@@ -119,7 +131,7 @@ def correspond(ctx):
     for i in range(n):
         text = gen_text(rnd, ca)
         name = rnd.choice(list(cons))
-        plat = rnd.choice(["ios", "nxos", "ios", "asa"]) if name in ("Port", "Protocol", "Option") else rnd.choice(["ios", "nxos"])
+        plat = rnd.choice(["ios", "nxos", "ios", "nxos", "asa"])
         seen.add((name, text))
         meta = {"k": "probe", "class": name, "text": text, "platform": plat}
         t0 = time.time()
@@ -184,6 +196,12 @@ def _probe_known(ca, fid):
             except ValueError:
                 return True
             return False
+        if fid == "N12":
+            try:
+                ca.AddressAg(ca.AddressAg("10.0.0.0/24", platform="asa").line, platform="asa")
+            except ValueError:
+                return True
+            return False
         if fid == "N9":
             p = ca.Port("range 1 300000", protocol="tcp")
             return len(p.ports) == 300000
@@ -214,6 +232,9 @@ def matches_known(ctx, kernel, meta, failure):
             return "N7"
         if cls == "Remark" and r.strip() == "remark" and not meta.get("text", "").strip():
             return "N10"
+        if failure.get("platform") == "asa" and ((cls == "AddressAg" and r.strip() == "") or
+                                                 (cls == "AddrGroup" and any(not ln.strip() for ln in r.split("\n")[1:]))):
+            return "N12"
         if cls == "Acl" and r.split("\n")[0].strip() in ("ip access-list extended", "ip access-list standard", "ip access-list"):
             return "N8"
     return None
